@@ -15,7 +15,7 @@ cvars == <<vars, cv>>
 CPos(p, i, c, s) == Pick(-9999, 99999, p, i, c, 0, s)
 CVel(p, i, c, s) == Pick(-999999, 9999999, p, i, c, 1, s)
 ChainGiven(fr, k) ==
-  [step |-> 0, bc |-> fr.bc, pid |-> fr.pid,
+  [step |-> 0, time |-> 0, div |-> 1, bc |-> fr.bc, pid |-> fr.pid,
    box |-> [r \in 1..3 |-> [c \in 1..3 |-> BoxK("gro", fr.bc, fr.pid, r, c)]],
    pos |-> [i \in 1..nb |-> [c \in 1..3 |-> CPos(fr.pid, i, c, k)]],
    vel |-> IF hv THEN [i \in 1..nb |-> [c \in 1..3 |-> CVel(fr.pid, i, c, k)]] ELSE <<>>,
